@@ -237,7 +237,7 @@ def job_exact_restore(nfr):
     return recs
 
 
-def job_times(nfr, T):
+def job_times(nfr, T, ordered=False):
     """overwrite_times -> slew_times == t_slew; consolidate = row-wise concatenation with absolute times.
     T: one integration count for all frames, or a tuple with one count per frame (frames of a cadence may differ in length)"""
     recs = []
@@ -247,39 +247,43 @@ def job_times(nfr, T):
     taus = [Sym(z3.Real(f'tau{m}')) for m in range(nfr)]
     slew = Sym(z3.Real('t_slew'))
     Ds = [sym_data(Ts[m], Fc, f'D{m}_') for m in range(nfr)]
-    tag = f"C16:times:{(nfr, T)}"
+    tag = f"C16:times:{(nfr, T)}" + (':ordered' if ordered else '')
+    mk = (lambda *a, **k: CAD.OrderedCadence(*a, order='ABACAD', **k)) if ordered else CAD.Cadence
 
     def run():
         frames = [make_frame(Ts[m], Fc, True, df, dt, fch1, t_start=taus[m]) for m in range(nfr)]
         for fr, D in zip(frames, Ds):
             fr.data = D.copy()
-        cad0 = CAD.Cadence(frames)
+        cad0 = mk(frames)
         natural = cad0.slew_times
         cons = cad0.consolidate()
-        cad = CAD.Cadence(frames, t_slew=slew, t_overwrite=True)
-        return cad.slew_times, [fr.t_start for fr in frames], natural, cons, cad.obs_range, cad.tchans
+        # a slew time without the request to overwrite leaves the start times alone
+        keep = mk(frames, t_slew=slew)
+        untouched = [fr.t_start for fr in frames]
+        cad = mk(frames, t_slew=slew, t_overwrite=True)
+        return cad.slew_times, [fr.t_start for fr in frames], natural, cons, cad.obs_range, cad.tchans, untouched
     with cad_patches():
         leaves = core.explore(run, pre, cap=16)
     recs_all = []
     for li, leaf in enumerate(leaves):
-        recs_all += _times_leaf(leaf, li, len(leaves), nfr, Ts, T, Fc, dt, taus, slew, Ds, pre, tag)
+        recs_all += _times_leaf(leaf, li, len(leaves), nfr, Ts, T, Fc, dt, taus, slew, Ds, pre, tag, ordered)
     r, _ = core.check(pre + [z3.Not(z3.Or(*[l.cond() for l in leaves]))], timeout_ms=30000)
     recs_all.append(q(tag + ':split-complete', r, leaves=len(leaves)))
     return recs_all
 
 
-def _times_leaf(leaf, li, nleaves, nfr, Ts, T, Fc, dt, taus, slew, Ds, pre, tag):
+def _times_leaf(leaf, li, nleaves, nfr, Ts, T, Fc, dt, taus, slew, Ds, pre, tag, ordered=False):
     recs = []
     tag = tag if nleaves == 1 else f"{tag}:leaf{li}"
     pre = pre + leaf.pc
-    pl = dict(fn='times', nfr=nfr, T=list(Ts))
+    pl = dict(fn='times', nfr=nfr, T=list(Ts), ordered=ordered)
     if leaf.kind == 'exc':
         r, m = core.check(pre + leaf.side, timeout_ms=30000)
         recs.append(q(tag + ':noexc', r, detail=repr(leaf.value)))
         if r == 'sat':
             recs.append(cex('C16:times:raise', f'cadence time bookkeeping raised {leaf.value!r}', dict(pl, tau0=core.model_float(m, taus[0])), name=tag + ':noexc'))
         return recs
-    sl, starts, natural, cons, obs_range, tch = leaf.value
+    sl, starts, natural, cons, obs_range, tch, untouched = leaf.value
     if obs_range is None or tch is None:
         r, m = core.check(pre + leaf.side, timeout_ms=30000)
         recs.append(q(tag + ':aggregates-defined', r, detail=f"obs_range={obs_range!r} tchans={tch!r}"))
@@ -294,6 +298,7 @@ def _times_leaf(leaf, li, nleaves, nfr, Ts, T, Fc, dt, taus, slew, Ds, pre, tag)
     dis.append(lift(starts[0]) != taus[0].t)
     for m in range(1, nfr):
         dis.append(lift(starts[m]) != taus[0].t + off[m] * dtv + m * slew.t)
+    dis += [lift(u) != taus[m].t for m, u in enumerate(untouched)]
     r, _ = core.check(pre + leaf.side + [z3.Or(*dis)], timeout_ms=60000)
     recs.append(q(tag + ':overwrite->slew', r))
     if r == 'sat':
@@ -395,7 +400,8 @@ def replay_times(p):
     frames = [stg.Frame(fchans=3, tchans=Ts[m], df=2.0, dt=4.0, fch1=4096.0, t_start=t0s[m], seed=m) for m in range(nfr)]
     for m, fr in enumerate(frames):
         fr.data = np.full((Ts[m], 3), float(m))
-    cad0 = stg.Cadence(frames)
+    mk = (lambda *a, **k: stg.OrderedCadence(*a, order='ABACAD', **k)) if p.get('ordered') else stg.Cadence
+    cad0 = mk(frames)
     nat = cad0.slew_times
     cons = cad0.consolidate()
     msgs = []
@@ -413,7 +419,10 @@ def replay_times(p):
         fr.t_start = t0s[m]
     if not np.allclose(stg.Cadence(late).slew_times, [t0s[m] - (t0s[m - 1] + 4.0 * Ts[m - 1]) for m in range(1, nfr)]):
         msgs.append(f'natural slew times of frames whose start time was reassigned: {stg.Cadence(late).slew_times}')
-    cad = stg.Cadence(frames, t_slew=7.5, t_overwrite=True)
+    keep = mk(frames, t_slew=7.5)
+    if [fr.t_start for fr in frames] != t0s:
+        msgs.append(f'a cadence built with a slew time but without t_overwrite moved the start times to {[fr.t_start for fr in frames]}')
+    cad = mk(frames, t_slew=7.5, t_overwrite=True)
     if not np.allclose(cad.slew_times, 7.5):
         msgs.append(f'slew times after overwrite {cad.slew_times}')
     want = [frames[0].t_start + 4.0 * off[m] + 7.5 * m for m in range(nfr)]
@@ -461,6 +470,7 @@ def main():
         jobs.append(('job_times', (nfr, 2)))
         if nfr >= 2:
             jobs.append(('job_times', (nfr, (2, 1, 3, 2)[:nfr])))
+            jobs.append(('job_times', (nfr, 2, True)))
     for sel in (('slice', 0, None, 2), ('slice', 1, None, 2), ('index', (0, 2)), ('index', (2, 0)), ('slice', 1, 3, None)):
         jobs.append(('job_overwrite_select', (3 if not ck.thorough else 4, sel)))
     for sel in (('slice', 1, 3), ('slice', 0, 2), ('index', (0, 2)), ('index', (2, 1))):
